@@ -50,6 +50,23 @@ CHECKS = {
         "fixed sizes never move and dynamic sizes follow the terminal.",
         note="Trusts vf/models/sizing.py (AUTO three-valued within +-0.5 px) and the pty's TIOCSWINSZ as the source of terminal/cell size.",
     ),
+    "C16": dict(
+        level="exploration",
+        technique="runtime monitor: documentation model of RenderArgs compared after every operation of generated programs; deep snapshots of all pre-existing objects",
+        text="Generated class trees and random operation pools (constructor, update, convert, |, +, to_render_args, namespace update, "
+        "item access) biased toward default-valued arguments; every result's per-class namespaces, acceptance/error type, eq/hash and the "
+        "immutability of every pre-existing object (incl. interned defaults and _ALL_DEFAULT_ARGS) are checked; malformed namespace class "
+        "definitions must be rejected.",
+        note="Trusts the precedence/compatibility model inside vf/checks/c16.py (from the RenderArgs/ArgsNamespace docstrings).",
+    ),
+    "C20": dict(
+        level="exploration",
+        technique="runtime monitor: resolution model for every style setting on every node after each operation; render method observed from the framing of real renders on VTerm",
+        text="Random subclass trees with instances and histories of set/unset/invalid-set for render method, forced_support, jpeg_quality, "
+        "read_from_file and native_anim_max_bytes; effective values of all nodes compared with the model after every step; the method "
+        "actually used by a render (and per-call override) read off the protocol framing; instantiation refused iff neither supported nor forced.",
+        note="Trusts the resolution model in vf/checks/c20.py and VTerm's protocol parsing for counting graphics commands.",
+    ),
 }
 
 NOT_APPLICABLE = {
